@@ -69,7 +69,8 @@ variable {s : Simp} {o : Oracle} {cfg : Cfg} {env : Env} {code : List Nat} {p : 
 theorem goodState_init : GoodState env code p w initState :=
   fun _ _ f0 hR0 _ => Or.inl ⟨f0, CReach.refl f0, hR0⟩
 
-theorem step_good (hs : SimpSound s) (hmem : cfg.maxMem + 32 ≤ p.memLimit) {st : SState}
+theorem step_good (hs : SimpSound s) (hmem : cfg.maxMem + 32 ≤ p.memLimit) (hcode : ∀ b ∈ code, b < 256)
+    {st : SState}
     (hg : GoodState env code p w st) :
     (∀ st' ∈ (step s o cfg env code st).next, GoodState env code p w st') ∧
     (∀ e ∈ (step s o cfg env code st).ends, GoodEnd env code p w e) := by
@@ -79,7 +80,7 @@ theorem step_good (hs : SimpSound s) (hmem : cfg.maxMem + 32 ≤ p.memLimit) {st
     have hsat : Sat I st.path := by rw [hp] at hsat'; exact (sat_append.1 hsat').1
     rcases hg I hI f0 hR0 hsat with ⟨f, hreach, hR⟩ | hov
     · by_cases hl : f.stack.length ≤ 1024
-      · obtain ⟨f', hr', hR'⟩ := (step_sound (w := w) (o := o) (cfg := cfg) hs hI hR hsat hl hmem).1 st' hm hsat'
+      · obtain ⟨f', hr', hR'⟩ := (step_sound (w := w) (o := o) (cfg := cfg) hs hI hR hsat hl hmem hcode).1 st' hm hsat'
         exact Or.inl ⟨f', hreach.trans hr', hR'⟩
       · exact Or.inr ⟨f, hreach, by omega⟩
     · exact Or.inr hov
@@ -87,12 +88,13 @@ theorem step_good (hs : SimpSound s) (hmem : cfg.maxMem + 32 ≤ p.memLimit) {st
     have hsat : Sat I st.path := by rw [← step_end_path hm]; exact hsat'
     rcases hg I hI f0 hR0 hsat with ⟨f, hreach, hR⟩ | hov
     · by_cases hl : f.stack.length ≤ 1024
-      · exact Or.inl ⟨f, hreach, (step_sound (w := w) (o := o) (cfg := cfg) hs hI hR hsat hl hmem).2 e hm htag h hout⟩
+      · exact Or.inl ⟨f, hreach, (step_sound (w := w) (o := o) (cfg := cfg) hs hI hR hsat hl hmem hcode).2 e hm htag h hout⟩
       · exact Or.inr ⟨f, hreach, by omega⟩
     · exact Or.inr hov
 
 /-- **explore_sound.** Good worklist and good accumulated end states give good end states at the end. -/
-theorem explore_sound (hs : SimpSound s) (hmem : cfg.maxMem + 32 ≤ p.memLimit) (fuel : Nat) : ∀ (steps : Nat) (wl : List SState) (acc : Result),
+theorem explore_sound (hs : SimpSound s) (hmem : cfg.maxMem + 32 ≤ p.memLimit) (hcode : ∀ b ∈ code, b < 256)
+    (fuel : Nat) : ∀ (steps : Nat) (wl : List SState) (acc : Result),
     (∀ st ∈ wl, GoodState env code p w st) → (∀ e ∈ acc.ends, GoodEnd env code p w e) →
     ∀ e ∈ (explore s o cfg env code fuel steps wl acc).ends, GoodEnd env code p w e := by
   induction fuel with
@@ -109,7 +111,7 @@ theorem explore_sound (hs : SimpSound s) (hmem : cfg.maxMem + 32 ≤ p.memLimit)
       rw [explore_succ]
       split
       · exact ih _ _ _ (fun x hx => hwl x (List.mem_cons_of_mem _ hx)) hacc
-      · obtain ⟨hn, he⟩ := step_good (o := o) (cfg := cfg) hs hmem (hwl st (List.mem_cons_self ..))
+      · obtain ⟨hn, he⟩ := step_good (o := o) (cfg := cfg) hs hmem hcode (hwl st (List.mem_cons_self ..))
         refine ih _ _ _ ?_ ?_
         · intro x hx
           rcases List.mem_append.1 hx with hx | hx
@@ -170,7 +172,7 @@ theorem explore_mono {I : Interp} {h : Evm.Halt} (fuel : Nat) : ∀ (steps : Nat
 /-- **explore_complete.** If some worklist state is related to a concrete frame from which the machine terminates with
     `h` (not a stack overflow) and `I` satisfies its path, the final result covers `h`. -/
 theorem explore_complete (hs : SimpSound s) (ho : OracleSound o) (hmem : cfg.maxMem + 32 ≤ p.memLimit)
-    {I : Interp} (hI : I.Std) {w' : Evm.World}
+    (hcode : ∀ b ∈ code, b < 256) {I : Interp} (hI : I.Std) {w' : Evm.World}
     {h : Evm.Halt} (hne : h ≠ .stackOverflow) (fuel : Nat) : ∀ (steps : Nat) (wl : List SState) (acc : Result),
     (∃ st ∈ wl, Sat I st.path ∧ ∃ f, R I env code p st f ∧ Halts p w f (w', h)) →
     Covered I h (explore s o cfg env code fuel steps wl acc) := by
@@ -194,7 +196,7 @@ theorem explore_complete (hs : SimpSound s) (ho : OracleSound o) (hmem : cfg.max
             have := (halts_halt (evm_overflow (p := p) (w := w) (f := f) (by omega))).1 hh
             cases this
             exact hne rfl
-          rcases step_complete (cfg := cfg) hs ho hI hR hl hmem hsat hh with
+          rcases step_complete (cfg := cfg) hs ho hI hR hl hmem hcode hsat hh with
             ⟨st', hm', hsat', f', hR', hh'⟩ | ⟨e, hme, hcov⟩ | hb
           · exact ih _ _ _ ⟨st', List.mem_append_left _ (List.mem_reverse.2 hm'), hsat', f', hR', hh'⟩
           · exact explore_mono _ _ _ _ (Or.inl ⟨e, List.mem_append_right _ hme, hcov⟩)
